@@ -129,7 +129,7 @@ def run(workdir, module, cfg=None, workers=None, args=(), timeout=1800, env=None
     """Run TLC on `module` (a .tla in workdir) with config `cfg` (default module.cfg)."""
     wd = workdir.path if isinstance(workdir, Workdir) else workdir
     meta = tempfile.mkdtemp(prefix='meta-', dir=wd)
-    cmd = ['java', '-XX:+UseParallelGC']
+    cmd = ['java', '-XX:+UseParallelGC', '-Djava.io.tmpdir=%s' % meta]      # (TLC leaves a tlc-<n> directory per run in java.io.tmpdir)
     if heap:
         cmd.append('-Xmx%s' % heap)
     if deque:
